@@ -133,6 +133,7 @@ func killRun(bin, work string, c Case, kp killPoint, env ...string) killResult {
 		return kr
 	}
 	exp := Reference(tree, inv, []byte(c.Stdin))
+	clearRepaired(exp)
 	if exp.NotJudged != "" {
 		kr.err = fmt.Errorf("not judged: %s", exp.NotJudged)
 		return kr
